@@ -121,6 +121,11 @@ func (c12) Eval(t *testing.T, c *Case, dec func(int) *Decider) *Outcome {
 		return o
 	}
 	want := resultOf(resRef)
+	if resRef.Procs[0].ExitCode != 0 {
+		o.Stats.probe("reference-run-ended-with-error")
+	} else {
+		o.Stats.probe("reference-run-ok")
+	}
 	vs := genVariants(c.Seed, 2)
 	var lastDec *Decider
 	var lastRes *RunResult
